@@ -32,15 +32,17 @@ type netDeps struct {
 	ee *expand.Engine
 }
 
-func (d *netDeps) Persister() persistence.Persister                 { return d.p }
-func (d *netDeps) RelationTupleManager() relationtuple.Manager       { return d.p }
-func (d *netDeps) MappingManager() relationtuple.MappingManager      { return d.p }
-func (d *netDeps) Traverser() relationtuple.Traverser               { return d.tr }
-func (d *netDeps) NetworkID(ctx context.Context) uuid.UUID          { return d.p.NetworkID(ctx) }
-func (d *netDeps) PermissionEngine() *check.Engine                  { return d.ce }
-func (d *netDeps) ExpandEngine() *expand.Engine                     { return d.ee }
-func (d *netDeps) Mapper() *relationtuple.Mapper                    { return &relationtuple.Mapper{D: d} }
-func (d *netDeps) ReadOnlyMapper() *relationtuple.Mapper            { return &relationtuple.Mapper{D: d, ReadOnly: true} }
+func (d *netDeps) Persister() persistence.Persister             { return d.p }
+func (d *netDeps) RelationTupleManager() relationtuple.Manager  { return d.p }
+func (d *netDeps) MappingManager() relationtuple.MappingManager { return d.p }
+func (d *netDeps) Traverser() relationtuple.Traverser           { return d.tr }
+func (d *netDeps) NetworkID(ctx context.Context) uuid.UUID      { return d.p.NetworkID(ctx) }
+func (d *netDeps) PermissionEngine() *check.Engine              { return d.ce }
+func (d *netDeps) ExpandEngine() *expand.Engine                 { return d.ee }
+func (d *netDeps) Mapper() *relationtuple.Mapper                { return &relationtuple.Mapper{D: d} }
+func (d *netDeps) ReadOnlyMapper() *relationtuple.Mapper {
+	return &relationtuple.Mapper{D: d, ReadOnly: true}
+}
 
 func newNetDeps(e *Env, nid uuid.UUID) *netDeps {
 	p, err := ksql.NewPersister(e.Ctx, e.Reg, nid)
@@ -57,7 +59,9 @@ func itKey(t *relationtuple.RelationTuple) string {
 	return fmt.Sprintf("%s:%s#%s@%s", t.Namespace, t.Object, t.Relation, t.Subject.String())
 }
 
-type itModel struct{ T []*relationtuple.RelationTuple }
+type itModel struct {
+	T []*relationtuple.RelationTuple
+}
 
 func (m *itModel) keys() []string {
 	var ks []string
